@@ -36,6 +36,94 @@ func sharedPlan(tier string) []driver.Case {
 	return cases
 }
 
+// One native rate-limited observable (a recipe: GroupBy, windows and counters per subscription)
+// subscribed by two consumers at the same time over a cold asynchronous source. The window is one
+// hour: each consumer gets exactly the first q items of every key of ITS run, in order, no duplicates.
+func twicePlan(tier string) []driver.Case {
+	rounds := 10
+	if tier == "thorough" {
+		rounds = 100
+	}
+	var cases []driver.Case
+	for q := 1; q <= 3; q++ {
+		for _, nk := range []int{1, 3} {
+			cases = append(cases, driver.Case{ID: fmt.Sprintf("native-twice/q%d/k%d", q, nk), P: map[string]string{"kind": "twice", "q": fmt.Sprint(q), "nk": fmt.Sprint(nk), "rounds": fmt.Sprint(rounds)}})
+		}
+	}
+	return cases
+}
+
+func runTwice(c driver.Case) driver.Result {
+	q, nk, rounds := c.Int("q"), c.Int("nk"), c.Int("rounds")
+	res := driver.Result{Verdict: driver.Held}
+	const perKey = 8
+	what := fmt.Sprintf("one native limiter observable (quota %d per hour) subscribed by two consumers at once, %d key(s), %d items per key and run", q, nk, perKey)
+	for round := 0; round < rounds; round++ {
+		var gate atomic.Int64
+		cold := ro.NewObservable(func(dest ro.Observer[item]) ro.Teardown {
+			go func() {
+				defer func() { recover() }()
+				gate.Add(1)
+				for gate.Load() < 2 {
+					runtime.Gosched()
+				}
+				for i := 0; i < perKey; i++ {
+					for k := 0; k < nk; k++ {
+						dest.Next(item{Key: keyName(k), Seq: i})
+						runtime.Gosched()
+					}
+				}
+				dest.Complete()
+			}()
+			return nil
+		})
+		limited := operator("native", q, time.Hour)(cold)
+		var mu sync.Mutex
+		got := [2][]item{}
+		var wg sync.WaitGroup
+		for s := 0; s < 2; s++ {
+			s := s
+			wg.Add(1)
+			limited.Subscribe(ro.NewObserver(
+				func(it item) { mu.Lock(); got[s] = append(got[s], it); mu.Unlock() },
+				func(error) { wg.Done() },
+				func() { wg.Done() },
+			))
+		}
+		done := make(chan struct{})
+		go func() { wg.Wait(); close(done) }()
+		select {
+		case <-done:
+		case <-time.After(20 * time.Second):
+			res.Verdict, res.Key, res.Dirty = driver.Inconclusive, "consumers-not-finished", true
+			return res
+		}
+		for s := 0; s < 2; s++ {
+			next := map[string]int{}
+			for _, it := range got[s] {
+				res.Events++
+				if it.Seq != next[it.Key] {
+					res.Verdict, res.Key = driver.Violated, "C20/native/overlapping-subscriptions-influence-each-other"
+					res.Msg = fmt.Sprintf("%s: round %d: consumer %d received %v; of each key it must get items 0..%d once, in order (consumer 0 got %v, consumer 1 got %v)", what, round, s, it, q-1, got[0], got[1])
+					return res
+				}
+				next[it.Key]++
+			}
+			for k := 0; k < nk; k++ {
+				if next[keyName(k)] != q {
+					res.Verdict, res.Key = driver.Violated, "C20/native/overlapping-subscriptions-influence-each-other"
+					res.Msg = fmt.Sprintf("%s: round %d: consumer %d received %d items of key %q, the quota is %d and %d were offered (consumer 0 got %v, consumer 1 got %v)", what, round, s, next[keyName(k)], keyName(k), q, perKey, got[0], got[1])
+					return res
+				}
+			}
+		}
+	}
+	res.Nontrivial = true
+	res.Sig = fmt.Sprintf("twice/%d/%d", q, nk)
+	res.Sample = map[string]any{"limiter": "native", "quota": q, "keys": nk, "rounds": rounds}
+	return res
+}
+
 func runShared(c driver.Case) driver.Result {
 	q, streams, nk, rounds := c.Int("q"), c.Int("streams"), c.Int("nk"), c.Int("rounds")
 	res := driver.Result{Verdict: driver.Held}
